@@ -756,7 +756,7 @@ def cycle_search_functions(nf):
 
 def check_allowed_position_table(prog, run, rule_id):
     """The verdict of VariablesInAllowedPosition, row by row."""
-    from .. import boolx
+    from .. import boolx, predcall
     import re
     r = run.rule(rule_id, "VariablesInAllowedPositionChecker, the check of one usage decided for all 256 assignments of (location type is NonNull, "
                           "variable type is NonNull, the variable has a default, that default is not the null literal, the location has an "
@@ -801,7 +801,8 @@ def check_allowed_position_table(prog, run, rule_id):
                 return True
             return None
         try:
-            _ev, exits = boolx.walk_under(body, decide)
+            # a condition moved into a helper is decided by enumerating the helper under the same assignment
+            _ev, exits = boolx.walk_under(body, predcall.decide_with_helpers(prog, ld, decide, run.looked_at))
         except ValueError as e:
             raise AnalysisError("C06.%s: %s" % (rule_id, e))
         outcomes = set()
